@@ -21,6 +21,9 @@ CLAIMS = {
  "C05": ("Structural clauses only: every acyclic path of tpt_msg_send falls into one of the seven documented outcomes with the stated (return class, number of direct callback calls): at most one direct call, none when a failure is returned, each only under the flag that asks for it; packet atomicity preconditions (sizeof(packet) <= PIPE_BUF, one whole-packet write whose result is compared with that size, O_NONBLOCK pipe, read buffer a whole number of packets); dispatch only of magic+checksum verified packets with non-NULL callback, once per packet. Exactly-once / ordering / routing under concurrent senders is NOT decided.",
          "Trusts clang 14 CFG; POSIX pipe atomicity for writes <= PIPE_BUF; infeasible paths can only add rows that must still classify.",
          "static analysis: acyclic CFG path enumeration with per-path summaries, dominance/edge-removal reachability, compile-time probes"),
+ "C08": ("Structural/specification clauses only (neither cipher is built by the test suite): ChaCha sigma/tau, the 64 statements of the double round (operands, rotations, column/diagonal index tuples), rounds loop, key/counter/IV word layout for both key sizes, HChaCha/XChaCha wiring, block macro word coverage, sibling agreement of the three block variants incl. counter carry, alignment dispatch; GOST 28147 round/key schedule and composition, f function in both table builds, table expansion formula (abstract evaluation with a synthetic S-box), S-box rows are permutations, aligned/unaligned and encrypt/decrypt I/O agreement; context wipes. Key-stream / cipher-text values are NOT decided.",
+         "Trusts clang 14 front end; reference structure from RFC 8439 / RFC 5830.",
+         "static analysis: statement-sequence comparison against a generated reference, canonicalised load/store sibling comparison, abstract expression evaluation, post-dominance of wipes"),
  "C10": ("Structural clauses only: the shared countdown field is accessed under its lock after publication (lock-set dataflow), pre-publication accesses cannot follow a send; no dereference of the shared record after the countdown's unlock (the clause 'does not touch the caller's memory afterwards'); the heap record of the completion form is freed/handed over on every path; per-target sent/failed accounting and returned failure count; single completion site guarded by zero that frees after the user callback; one-by-one token order. Once-per-thread / completion-after-all under interleavings is NOT decided.",
          "Trusts clang 14 CFG, pthread mutex semantics, tpt_msg_send returning 0 = ownership transferred.",
          "static analysis: lock-set dataflow, reachability after release point, path enumeration for ownership and accounting"),
